@@ -20,5 +20,14 @@ def offset_jobs(tier, prop):
                       bound='ndims=%d %s, xsz=%d, outer dimension lengths <= %d, innermost <= %d, record index <= 3, begin/recsize < 2^40' % (nd, 'record' if isrec else 'fixed', xsz, omax, imax)))
     return js
 
+def contig_jobs(tier, prop):
+    js = []
+    for nd in (1, 2, 3):
+        js.append(Job('%s/is_request_contiguous/ndims%d' % (prop, nd), prop, ['src/drivers/ncmpio/ncmpio_filetype.c'], 'C01_contig.c', enforce='ncmpio_filetype.c:is_request_contiguous',
+                      defines=['-DNDIMS=%d' % nd, '-DSMAX=%d' % (6 if tier == 'quick' else 12)], canaries=['noncontiguous'] + (['several_rows_contiguous', 'several_records_of_the_only_record_variable'] if nd > 1 else []),
+                      unwind=6, kind='bounded', timeout=600, solver=['--sat-solver', 'cadical'],
+                      bound='%d dimensions of length 1..%d, counts 0..length, kind (fixed / only record variable / one of several record variables) symbolic' % (nd, 6 if tier == 'quick' else 12)))
+    return js
+
 def jobs(tier, ws):
-    return offset_jobs(tier, 'C01')
+    return offset_jobs(tier, 'C01') + contig_jobs(tier, 'C01')
